@@ -33,6 +33,9 @@ CHECKS = {
  'C08': ('Hypothesis-generated estimation problems (3 solvers, iteration counts incl. 1, early exits, structural zeros) vs brute-force joint of the returned parameters; all-subsets query sweep',
          'Generated-input search: the returned model is queried on every attribute subset (drawn orders) and each answer, the stored marginals and the data vector are compared with the joint of the stored potentials; finite / non-negative / sums-to-total asserted explicitly.',
          'One-cell projections and all-zero queries are not given to RDA/IG (ARPACK preconditions). F14 (MD step doubling) is a listed known finding recognised by its root-cause signature.'),
+ 'C03': ('Hypothesis-generated estimation problems vs an independent simplex-QP solver with a Frank-Wolfe duality-gap certificate (differential, certified bounds)',
+         'Generated-input search over measurement sets and solvers; the loss recomputed from model.project answers must lie between the certified minimum and the uniform start, and reach the optimum under iteration escalation (plateau rule; still-decreasing runs are inconclusive, never violations).',
+         'Trusts the oracle solver only through its certificate (cases whose gap is not < 1e-9 are inconclusive). F14 instances (single-cell projections under MD) are a listed known finding.'),
 }
 NOT_YET = 'check not built yet (work in progress in this session); see DESIGN.md for the planned check'
 
